@@ -94,6 +94,32 @@ func (g *guarded) LockBad(k string) int {
 	return g.m[k]
 }
 
+// one critical section vs. a conditional release/re-acquire between check and act
+func (g *guarded) SectionGood(k string, slow func()) bool {
+	g.mu.Lock()
+	defer g.mu.Unlock()
+	if _, ok := g.m[k]; ok {
+		return false
+	}
+	g.m[k] = 1
+	return true
+}
+
+func (g *guarded) SectionBad(k string, slow func()) bool {
+	g.mu.Lock()
+	defer g.mu.Unlock()
+	if _, ok := g.m[k]; ok {
+		return false
+	}
+	if slow != nil {
+		g.mu.Unlock()
+		slow()
+		g.mu.Lock()
+	}
+	g.m[k] = 1
+	return true
+}
+
 // ---- read shape ---------------------------------------------------------------
 
 func ReadGood(r io.Reader, n int) ([]byte, error) {
@@ -116,6 +142,18 @@ func ReadBad(r io.Reader) ([]byte, error) {
 		return nil, errors.New("short")
 	}
 	return buf, nil
+}
+
+func AtLeastGood(r io.Reader, n int) ([]byte, error) {
+	buf := make([]byte, n)
+	_, err := io.ReadAtLeast(r, buf, len(buf))
+	return buf, err
+}
+
+func AtLeastBad(r io.Reader, n int) ([]byte, error) {
+	buf := make([]byte, n)
+	_, err := io.ReadAtLeast(r, buf, 1)
+	return buf, err
 }
 
 // ---- read error leaves the loop --------------------------------------------------
